@@ -4,6 +4,7 @@
 //!   ohharness exec                                   execute the operation lines read on stdin
 mod ast;
 mod bdays;
+mod c10;
 mod c14;
 mod c15;
 mod cal;
@@ -35,6 +36,8 @@ fn exec_line(line: &str) -> String {
         c15::exec(op, args)
     } else if op.starts_with("chr.") {
         cal::exec(op, args)
+    } else if op.starts_with("hol.") {
+        c10::exec(op, args)
     } else if op.starts_with("nz.") {
         nz::exec(op, args)
     } else if op.starts_with("tz.") {
@@ -79,6 +82,7 @@ fn main() {
                 "cal" => cal::gen(tier, &mut rng, &mut emit),
                 "tz" => tz::gen(tier, &mut rng, &mut emit),
                 "nz" => nz::gen(tier, &mut rng, &mut emit),
+                "c10" => c10::gen(tier, &mut rng, &mut emit),
                 _ => {
                     eprintln!("unknown suite {suite}");
                     std::process::exit(2);
